@@ -134,7 +134,10 @@ def record_suite(suite, tier, seed, key):
         for c in range(0, nruns, chunk):
             p = os.path.join(cdir, "r%03d.ndjson" % c)
             sd = seed * 7919 + c * 104729 + (hash_name(suite) % 1000)
-            if mode == "meta":
+            if mode == "tomb":
+                cmd = ["timeout", "600", drive_bin(profile), "tomb", "--elem", elem, "--seed", str(sd), "--runs",
+                       str(min(chunk, nruns - c))] + flags + ["--out", p]
+            elif mode == "meta":
                 cmd = ["timeout", "600", drive_bin(profile), "meta", "--elem", elem, "--seed", str(sd), "--cases",
                        str(min(chunk, nruns - c))] + flags + ["--out", p]
             elif mode == "faults":
